@@ -42,8 +42,9 @@ Definition all_small (t : T) (a : list (list T)) : bool :=
 
 (* printed forms: scalars are printed by Coq itself (a bigQ as n or n # d, a fixed-point number as its
    integer count of 2^-384); q + k*log(2 pi) + sum c_i*log(x_i) is [q; k; c_1; x_1; c_2; x_2; ...] *)
-Definition approx_ll (l : loglin S) : list T :=
-  ll_rat _ l :: ll_2pi _ l :: concat (map (fun cx => [fst cx; snd cx]) (ll_logs _ l)).
+Definition pr (x : T) := cs_print C x.
+Definition approx_ll (l : loglin S) :=
+  pr (ll_rat _ l) :: pr (ll_2pi _ l) :: concat (map (fun cx => [pr (fst cx); pr (snd cx)]) (ll_logs _ l)).
 
 Variables n nw nu nyf nxi : nat.
 
@@ -60,12 +61,12 @@ Definition run_case (deviation rescale_variance : bool) (s : solution QM n nw nu
     all_small t_init (lyapunov_residual s (cov_from_std QM nu init_std_u) init_mse)],
    (* likelihood: sum_num_obs, [[var_scale]; nll; det_Fi; pe_Fi_pe; contribution_0; contribution_1; ...] *)
    Z.of_nat (l_sum_num_obs lk),
-   ([l_var_scale lk] :: approx_ll (l_nll lk)
-     :: k_det_Fi k :: k_pe_Fi_pe k :: map approx_ll (k_contributions k))).
+   ([pr (l_var_scale lk)] :: approx_ll (l_nll lk)
+     :: map pr (k_det_Fi k) :: map pr (k_pe_Fi_pe k) :: map approx_ll (k_contributions k))).
 
 (* the model's numbers themselves (debugging aid of the harness) *)
 Definition dump_case (deviation rescale_variance : bool) (s : solution QM n nw nu nyf nxi)
     (init_med : mx QM n 1) (init_mse : mx QM n n) (data : list (pdata QM n nw nu nyf)) :=
   let k := kalman_filter deviation rescale_variance s init_med init_mse data in
-  concat (map flatten_pout (k_periods k)).
+  map pr (concat (map flatten_pout (k_periods k))).
 End Run.
